@@ -177,6 +177,43 @@ func runC14(c *fw.Ctx) {
 			}
 		})
 	}
+	// groups of shapes that collide under ad-hoc cache keys and hashes: every activation (Softmax along every dimension) on every
+	// shape of a group, one after the other in one process, both orders
+	for gi, group := range CollidingShapes {
+		for rev := 0; rev < 2; rev++ {
+			gi, group, rev := gi, group, rev
+			c.Case(func(k *fw.K) {
+				k.Key("colliding/%d/%d", gi, rev)
+				k.Count("colliding_shape_group_cases", 1)
+				for pass := 0; pass < 2; pass++ {
+					for q := range group {
+						shape := group[q]
+						if rev == 1 {
+							shape = group[len(group)-1-q]
+						}
+						for _, sp := range actSpecs(len(shape)) {
+							obj, err := sp.mk()
+							if err != nil {
+								k.Failf("%s: constructor failed: %v", sp.name, err)
+								return
+							}
+							x, cname := actValues(k, 0, shape, sp.in.Dim)
+							want, _ := ref.Apply(sp.in, []*ref.T{x})
+							var y tensor.Tensor
+							if p := call(func() { y, err = obj.Forward(rt.MustLeaf(x, false)) }); p != nil || err != nil || y == nil {
+								k.Failf("%s on shape %v (after the other shapes of the group %v): panic=%v err=%v", sp.name, shape, group, p, err)
+								return
+							}
+							if e := rt.Compare(y, want, 1e-300, 1e-12, nil, 0); e != nil {
+								k.Failf("%s on shape %v [%s] (after the other shapes of the group %v): %v", sp.name, shape, cname, group, e)
+								return
+							}
+						}
+					}
+				}
+			})
+		}
+	}
 	for _, shape := range Shapes(0, c.Pick(5, 6), 3) {
 		for _, sp := range actSpecs(len(shape)) {
 			for ci := range actClasses(sp) {
